@@ -179,14 +179,115 @@ def analyse(repo):
     return r
 
 
+def analyse_all(repo):
+    r = analyse(repo)
+    try:
+        r["shared_state"] = shared_state(repo)
+    except Exception as e:      # the scan must not hide a recognised pool
+        r["shared_state"] = ["scan-failed: %s" % e]
+    return r
+
+
+
+
+# ------------------------------------------------------------------------------------------------
+# every other piece of mutable state with static storage duration in the library (src/ except bin/ and
+# parallel/): `static` data (class members, function-local, file scope) and namespace-scope variables
+# that are not const / constexpr / thread_local / std::atomic.  The list is compared, name by name, with
+# the list reviewed in Conc/Pool.v (reviewed_shared_state): a new entry is unreviewed shared state.
+# ------------------------------------------------------------------------------------------------
+def _strip_all(txt):
+    txt = strip_comments(txt)
+    return re.sub(r'"(?:\\.|[^"\\\n])*"', '""', txt)
+
+
+SKIP_Q=re.compile(r"\b(const|constexpr|thread_local|consteval)\b")
+def scan_statics(repo):
+    out=[]
+    root=os.path.join(repo,"src")
+    for d,_,fs in os.walk(root):
+        rel=os.path.relpath(d,root)
+        if rel.split(os.sep)[0] in ("bin","parallel"): continue
+        for f in sorted(fs):
+            if not f.endswith((".h",".hpp",".cc",".C",".cpp")): continue
+            txt=_strip_all(open(os.path.join(d,f),errors="replace").read())
+            # statement-wise: find 'static' declarations
+            for m in re.finditer(r"(?m)(?:^|(?<=[;{}]))[ \t]*((?:inline[ \t]+|mutable[ \t]+)*static[ \t]+(?:inline[ \t]+)?)([^;{}()=]*?)\b([A-Za-z_]\w*)[ \t]*(\[[^\]]*\])?[ \t]*(=|;|\{|\()", txt):
+                quals,typ,name,arr,term=m.group(1),m.group(2),m.group(3),m.group(4),m.group(5)
+                full=m.group(0)
+                if re.search(r"static_(cast|assert)",full): continue
+                if SKIP_Q.search(typ) or SKIP_Q.search(quals): 
+                    # pointer-to-const that is itself mutable:  static const char* x  -> mutable pointer, but never written: keep out (immutable data)
+                    continue
+                if "std::atomic" in typ: continue
+                if not typ.strip(): continue
+                if term=="(":
+                    # function declaration unless first argument is a literal
+                    rest=txt[m.end():m.end()+40].lstrip()
+                    a=re.match(r'["\d\-]|([A-Za-z_][\w:]*)\s*[,)]',rest)
+                    if not a: continue
+                    if a.group(1) and re.fullmatch(r"(int|bool|void|char|unsigned|long|short|double|float|size_t|uint32_t|uint64_t|int32_t|int64_t|auto)",a.group(1)): continue
+                    if a.group(1) and (a.group(1)[0].isupper() and not a.group(1).endswith("_Undef") and not a.group(1).isupper()) : continue
+                if typ.strip() in ("class","struct","enum","union") : continue
+                if re.match(r"(class|struct|enum|union)\b",typ.strip()) and term=="{": continue
+                line=txt[:m.start()].count("\n")+1
+                out.append((os.path.join(rel,f),name,typ.strip(),line))
+    return out
+
+
+KW=re.compile(r"^(using|typedef|class|struct|enum|union|namespace|return|extern|template|friend|static|inline\s+static|const|constexpr|inline\s+const|inline\s+constexpr|thread_local|#|public|private|protected|case|goto|break|continue|delete|throw|else)\b")
+def scan_globals(repo):
+    out=[]
+    root=os.path.join(repo,"src")
+    for d,_,fs in os.walk(root):
+        rel=os.path.relpath(d,root)
+        if rel.split(os.sep)[0] in ("bin","parallel"): continue
+        for f in sorted(fs):
+            if not f.endswith((".h",".hpp",".cc",".C",".cpp")): continue
+            txt=_strip_all(open(os.path.join(d,f),errors="replace").read())
+            txt=re.sub(r"(?m)^[ \t]*#.*$","",txt)
+            stack=[]; stmt_start=0; i=0; n=len(txt)
+            while i<n:
+                ch=txt[i]
+                if ch=="{":
+                    head=txt[stmt_start:i]
+                    is_ns=bool(re.search(r"\bnamespace\b[\s\w:]*$",head)) or bool(re.search(r'extern\s*""\s*$',head))
+                    # brace initialiser of a namespace-scope variable:  T name{...};  keep scanning inside as non-namespace
+                    stack.append(is_ns)
+                    if is_ns: stmt_start=i+1
+                elif ch=="}":
+                    if stack:
+                        was=stack.pop()
+                        if was: stmt_start=i+1
+                        elif all(stack):
+                            # end of a non-namespace block at namespace scope: a following ';' closes the statement
+                            pass
+                elif ch==";" and all(stack):
+                    st=txt[stmt_start:i].strip(); stmt_start=i+1
+                    s1=re.sub(r"\{.*\}","{}",st,flags=re.S)
+                    if s1 and not KW.match(s1) and "(" not in s1 and "operator" not in s1:
+                        m=re.match(r"^([\w:<>,\*&\s]+?)[\s\*&]+([A-Za-z_]\w*)\s*(\[[^\]]*\])?\s*(=.*|\{\})?$",s1,flags=re.S)
+                        if m and not SKIP_Q.search(m.group(1)) and "std::atomic" not in m.group(1):
+                            out.append((os.path.join(rel,f),m.group(2),re.sub(r"\s+"," ",m.group(1)),txt[:i].count("\n")+1))
+                i+=1
+    return out
+
+
+def shared_state(repo):
+    """sorted list of 'dir/file:name' of mutable static-storage objects"""
+    items = {"%s:%s" % (f, n) for f, n, _, _ in scan_statics(repo)} | {"%s:%s" % (f, n) for f, n, _, _ in scan_globals(repo)}
+    return sorted(items)
+
+
 def render(r):
     disc = {"none": 0, "mutex": 1, "thread_local": 2, "thread_local+mutex": 3}[r["discipline"]]
     return """(* GENERATED by translate/pool_sync.py from src/common/numbers/FastRational.{h,cc} - do not edit.
    %s
    anchors: %s *)
-From Coq Require Import List.
+From Coq Require Import List String.
 Import ListNotations.
 From OsmtV.Conc Require Import Pool.
+Local Open Scope string_scope.
 
 Definition locked : bool := %s.
 (* 0 = no synchronisation, 1 = mutex in alloc and release, 2 = thread_local pool, 3 = both *)
@@ -194,13 +295,18 @@ Definition discipline : nat := %d.
 (* container operations in statement order, as found in the two method bodies *)
 Definition alloc_order : list micro := [%s].
 Definition release_order : list micro := [%s].
+(* mutable objects with static storage duration found in src/ (not const/constexpr/thread_local/std::atomic;
+   bin/ and parallel/ excluded), as "dir/file:name" *)
+Definition shared_state : list string := [
+%s].
 """ % (r["detail"], ", ".join("%s=%s" % kv for kv in sorted(r["anchors"].items())),
-       "true" if r["locked"] else "false", disc, "; ".join(r["alloc_order"]), "; ".join(r["release_order"]))
+       "true" if r["locked"] else "false", disc, "; ".join(r["alloc_order"]), "; ".join(r["release_order"]),
+       ";\n".join('  "%s"' % s for s in r.get("shared_state", [])))
 
 
 def regenerate(repo, out=OUT):
     """Analyse and (when recognised) write Gen_PoolSync.v if its content changed. Returns the analysis."""
-    r = analyse(repo)
+    r = analyse_all(repo)
     if r["ok"]:
         txt = render(r)
         old = open(out).read() if os.path.exists(out) else None
